@@ -99,6 +99,23 @@ pub open spec fn ev_sum(ev: Seq<Event>) -> int
 pub open spec fn is_token(e: Event) -> bool { e is Token }
 /// every Token event stands for at least one raw token
 pub open spec fn toks_ok(ev: Seq<Event>) -> bool { forall|i: int| 0 <= i < ev.len() && #[trigger] is_token(ev[i]) ==> tok_n(ev[i]) >= 1 }
+/// a Start event of a node that was completed (pending and abandoned slots are tombstones)
+pub open spec fn is_real(e: Event) -> bool { e matches Event::Start { kind, .. } && kind != SyntaxKind::TOMBSTONE }
+pub open spec fn real_n(e: Event) -> int { if is_real(e) { 1 } else { 0 } }
+pub open spec fn fin_n(e: Event) -> int { if e is Finish { 1 } else { 0 } }
+/// completed nodes minus Finish events: 0 in every reachable parser state (a node gets its kind and its Finish together)
+pub open spec fn bal(ev: Seq<Event>) -> int
+    decreases ev.len()
+{ if ev.len() == 0 { 0 } else { bal(ev.drop_last()) + real_n(ev.last()) - fin_n(ev.last()) } }
+pub proof fn lemma_bal_update(ev: Seq<Event>, i: int, e: Event)
+    requires 0 <= i < ev.len(),
+    ensures bal(ev.update(i, e)) == bal(ev) - real_n(ev[i]) + fin_n(ev[i]) + real_n(e) - fin_n(e)
+    decreases ev.len()
+{
+    let s2 = ev.update(i, e);
+    if i == ev.len() - 1 { assert(s2.drop_last() =~= ev.drop_last()); }
+    else { assert(s2.drop_last() =~= ev.drop_last().update(i, e)); lemma_bal_update(ev.drop_last(), i, e); }
+}
 pub proof fn lemma_ev_sum_update(ev: Seq<Event>, i: int, e: Event)
     requires 0 <= i < ev.len(), tok_n(ev[i]) == tok_n(e),
     ensures ev_sum(ev.update(i, e)) == ev_sum(ev)
@@ -111,6 +128,7 @@ pub proof fn lemma_ev_sum_update(ev: Seq<Event>, i: int, e: Event)
 pub proof fn lemma_has_err_push(ev: Seq<Event>, e: Event)
     ensures has_err_seq(ev.push(e)) == (has_err_seq(ev) || e is Error),
         ev_sum(ev.push(e)) == ev_sum(ev) + tok_n(e), toks_ok(ev.push(e)) == (toks_ok(ev) && (e is Token ==> tok_n(e) >= 1)),
+        bal(ev.push(e)) == bal(ev) + real_n(e) - fin_n(e),
 {
     let s2 = ev.push(e);
     if has_err_seq(ev) { let i = choose|i: int| 0 <= i < ev.len() && is_error_event(#[trigger] ev[i]); assert(is_error_event(s2[i])); }
@@ -123,7 +141,9 @@ pub proof fn lemma_has_err_update(ev: Seq<Event>, i: int, e: Event)
     requires 0 <= i < ev.len(), !(ev[i] is Error), !(e is Error),
     ensures has_err_seq(ev.update(i, e)) == has_err_seq(ev),
         (ev[i] is Start && e is Start) ==> ev_sum(ev.update(i, e)) == ev_sum(ev) && toks_ok(ev.update(i, e)) == toks_ok(ev),
+        bal(ev.update(i, e)) == bal(ev) - real_n(ev[i]) + fin_n(ev[i]) + real_n(e) - fin_n(e),
 {
+    lemma_bal_update(ev, i, e);
     let s2 = ev.update(i, e);
     if has_err_seq(ev) { let j = choose|j: int| 0 <= j < ev.len() && is_error_event(#[trigger] ev[j]); assert(is_error_event(s2[j])); }
     if has_err_seq(s2) { let j = choose|j: int| 0 <= j < s2.len() && is_error_event(#[trigger] s2[j]); assert(is_error_event(ev[j])); }
@@ -137,6 +157,7 @@ pub proof fn lemma_has_err_drop_last(ev: Seq<Event>)
     requires ev.len() > 0, !(ev.last() is Error),
     ensures has_err_seq(ev.drop_last()) == has_err_seq(ev),
         ev.last() is Start ==> ev_sum(ev.drop_last()) == ev_sum(ev) && (toks_ok(ev) ==> toks_ok(ev.drop_last())),
+        bal(ev.drop_last()) == bal(ev) - real_n(ev.last()) + fin_n(ev.last()),
 {
     let s2 = ev.drop_last();
     if has_err_seq(ev) { let j = choose|j: int| 0 <= j < ev.len() && is_error_event(#[trigger] ev[j]); assert(j < s2.len()); assert(is_error_event(s2[j])); }
@@ -149,8 +170,9 @@ impl<'t> Parser<'t> {
     }
     /// at least one error event has been recorded
     pub open spec fn has_err(&self) -> bool { has_err_seq(self.events@) }
-    /// state well formed; forward_parent links valid; the Token events account for exactly the raw tokens consumed so far
-    pub open spec fn wf(&self) -> bool { wf(self.st()) && self.inp.wf() && fp_ok(self.events@) && toks_ok(self.events@) && ev_sum(self.events@) == self.pos }
+    /// state well formed; forward_parent links valid; the Token events account for exactly the raw tokens consumed so far;
+    /// as many Finish events as completed nodes
+    pub open spec fn wf(&self) -> bool { wf(self.st()) && self.inp.wf() && fp_ok(self.events@) && toks_ok(self.events@) && ev_sum(self.events@) == self.pos && bal(self.events@) == 0 }
 }
 // ---- event slots (marker discipline) -------------------------------------------------------------
 pub open spec fn is_start(e: Event) -> bool { e is Start }
